@@ -8,6 +8,7 @@ import SkModel.Basic
 import SkModel.Task
 import SkModel.Result
 import SkModel.Spec.Simple
+import SkModel.Spec.Sequence
 
 open Lean Sk
 
@@ -112,10 +113,75 @@ def specSimpleCase (j : Json) : Json :=
         Json.arr #[toJson ln, Json.arr (vs.map optVal).toArray]).toArray)
     | .seq _ => none)
 
+/-- spec layer for C03: per sequence definition, its complete sections -/
+def specSeqCase (j : Json) : Json :=
+  let t := toTaskIn j
+  Json.mkObj ((dedupDefs t.defs []).filterMap fun d =>
+    match d.kind with
+    | .seq s =>
+      let sdOf (role : String) : SDef :=
+        if role == "-start" then s.start
+        else if role == "-body" then s.body.getD s.start else s.end_.getD s.start
+      some (toString d.id, Json.arr ((Spec.sections s t.n).map fun sec =>
+        Json.arr ((Spec.itemsOf s t.n sec).map fun it =>
+          Json.arr #[Json.str it.role, toJson it.ln,
+            Json.arr ((Spec.values (sdOf it.role) it.m).map optVal).toArray]).toArray).toArray)
+    | .simple _ => none)
+
+/-! ### model-vs-spec small-scope sanity for C03 (not a proof; guards the statement) -/
+
+def clsSDef (bit : Nat) (role : String) (cls : Array Nat) (emptyHit : Bool) : SDef :=
+  { pats := [fun i => if (cls.getD i 0) / bit % 2 == 1
+                      then some { g0 := s!"{role}{i}", groups := [] } else none],
+    emptyRes := if emptyHit then some { g0 := s!"{role}E", groups := [] } else none }
+
+def eraseSec (rs : List Res) : List (String × Nat × List (Option Val)) :=
+  rs.map fun r => (r.tag.getD "", r.ln, r.iter)
+
+def groupBySec (rs : List Res) : List (List (String × Nat × List (Option Val))) :=
+  let keys := (rs.map (·.sec)).eraseDups
+  keys.map fun k => eraseSec (rs.filter (·.sec == k))
+
+def c03One (cls : Array Nat) (hasBody hasEnd endEmpty : Bool) : Bool :=
+  let n := cls.size
+  let s : SeqDef := { start := clsSDef 1 "S" cls false,
+                      body := if hasBody then some (clsSDef 2 "B" cls false) else none,
+                      end_ := if hasEnd then some (clsSDef 4 "E" cls endEmpty) else none,
+                      tag := "q" }
+  let t : TaskIn := { n := n, dec := fun _ => true, defs := [{ id := 7, kind := .seq s }] }
+  match runTask t with
+  | .ok (rs, _) =>
+    let want := (Spec.sections s n).map fun sec =>
+      (Spec.itemsOf s n sec).map fun it => ("q" ++ it.role, it.ln, Spec.values s.start it.m)
+    groupBySec rs == want
+  | .error _ => false
+
+partial def c03Exh (L : Nat) : Nat × Nat := Id.run do
+  let mut total := 0
+  let mut bad := 0
+  for len in [0:L+1] do
+    let count := 8 ^ len
+    for code in [0:count] do
+      let mut cls : Array Nat := #[]
+      let mut c := code
+      for _ in [0:len] do
+        cls := cls.push (c % 8)
+        c := c / 8
+      for cfg in [0:6] do
+        -- cfg: hasBody = cfg%2, end mode = cfg/2 (0 none, 1 end, 2 end matching empty)
+        let ok := c03One cls (cfg % 2 == 1) (cfg / 2 ≥ 1) (cfg / 2 == 2)
+        total := total + 1
+        if !ok then bad := bad + 1
+  return (total, bad)
+
 def handle (j : Json) : Json :=
   match strF j "kind" with
-  | "task" => Json.mkObj [("model", runTaskCase j), ("specSimple", specSimpleCase j)]
-  | k => Json.mkObj [("bad", Json.str s!"unknown kind {k}")]
+  | "task" => Json.mkObj [("model", runTaskCase j), ("specSimple", specSimpleCase j),
+                          ("specSeq", specSeqCase j)]
+  | "c03exh" =>
+    let (t, b) := c03Exh (natF j "L")
+    Json.mkObj [("total", toJson t), ("bad", toJson b)]
+  | k => Json.mkObj [("_bad", Json.str s!"unknown kind {k}")]
 
 end Drv
 
@@ -124,7 +190,7 @@ partial def loop (h : IO.FS.Stream) (out : IO.FS.Stream) : IO Unit := do
   if line.isEmpty then return ()
   match Json.parse line with
   | .ok j => out.putStrLn (Json.compress (Drv.handle j))
-  | .error e => out.putStrLn (Json.compress (Json.mkObj [("bad", Json.str e)]))
+  | .error e => out.putStrLn (Json.compress (Json.mkObj [("_bad", Json.str e)]))
   loop h out
 
 def main : IO Unit := do
